@@ -58,7 +58,10 @@ def main():
         }],
         "checks": checks,
         "not_applicable": [{"property_id": p, "reason": PENDING_REASON} for p in props if p not in CLAIMS],
-        "notes": "Exit 0 held / 1 violation / 2 infrastructure or timeout. Known findings are listed in /verif/known_findings.json.",
+        "notes": "Exit 0 held / 1 violation / 2 infrastructure or timeout. Known findings are listed per property in /verif/known_findings/<id>.json "
+                 "(committed, never written at run time). When a translator does not recognise changed source the check keeps the model of the "
+                 "unchanged tree (gen/baseline) and decides by correspondence + oracle + search, printing a NOTE line (DESIGN.md 9.7). "
+                 "Seeded changes: /verif/seeded; behaviour-preserving rewrites: /verif/refactors (DESIGN.md 9.5, 9.5b).",
     }
     with open(os.path.join(VERIF, "MANIFEST.json"), "w") as f:
         json.dump(man, f, indent=1)
